@@ -462,6 +462,11 @@ func TestReplay(t *testing.T) {
 			}
 			return checkCase(&c)
 		},
+		"splice": func(raw json.RawMessage) *ev.Failure {
+			var c SpliceCase
+			json.Unmarshal(raw, &c)
+			return checkSplice(&c)
+		},
 		"eval": func(raw json.RawMessage) *ev.Failure {
 			var c map[string]string
 			json.Unmarshal(raw, &c)
